@@ -55,3 +55,12 @@ add('C02', 'SYS', 'fault_enumeration',
     'For every job transition of the explored FLOW graphs that mutates the remote: one re-execution per crash boundary between remote-mutating operations (git push, comment, PR creation, decline) and one per single ref rejected by a real update hook; at the interrupted state all-or-none of every user commit over its targets and the C01 chain are checked on the remote; then the event is re-delivered to a fresh Bert-E (documented queue reset if asked) and destination trees are compared with the uninterrupted run.',
     'crash = crash-stop between operations (a single ref update is atomic in git); delivery is at-least-once, so both runs are settled by re-delivering the event until destinations stop moving; mock git host.',
     'exhaustive crash-point / rejected-ref enumeration on the real implementation', 'DESIGN.md section 5 C02')
+
+add('C08', 'SYS', 'model_checking',
+    'BFS over FLOW histories (decline, reset, queue admin jobs, delete_branch) with a monitor on every job: destination updates are fast-forwards, deleted only by delete_branch with an archive tag on the tip, no ref outside w/ q/ tmp/ changes, no forced push, former destination tips stay reachable; plus, for every push of every job, one re-execution per third-party action (new branch, push to a source branch, force-push of a source branch) placed immediately before that push.',
+    'the third party acts directly on the bare remote, one action per job, at push boundaries (as the quantifier says); mock git host.',
+    'explicit-state BFS + exhaustive placement of one concurrent action per push', 'DESIGN.md section 5 C08')
+add('C10', 'SYS', 'model_checking',
+    'BFS over histories with command comments, reviews, CI verdicts and declines; on every job transition the same evaluation is delivered four times on the long-lived instance: the fourth must change nothing, no robot message may appear twice in a row, command executions may not exceed command comments; independence from earlier jobs by replaying explored paths in fresh processes (keys and statuses identical).',
+    'mock git host; one or two pull requests; jobs enqueued by an evaluation are processed right after it.',
+    'explicit-state BFS + repeated-delivery deviation on every transition', 'DESIGN.md section 5 C10')
